@@ -7,7 +7,7 @@ RULE = ("constraint pairs and critical probes as in C05; the oracle judges regul
 
 def oracle_pair(c, probes):
     ca, cb = c.ca, c.cb
-    bounds = I.bounds_of(ca) + I.bounds_of(cb)
+    bounds = I.mentioned_bounds(ca, c.ga) + I.mentioned_bounds(cb, c.gb)
     reg = [v for v in probes if I.regular(v, bounds)]
     try:
         all_ab, any_ab = ca.allows_all(cb), ca.allows_any(cb)
@@ -50,11 +50,14 @@ def run(tier):
     for c in cases:
         if isinstance(c.ca, Exception) or isinstance(c.cb, Exception):
             R.count("operand_rejected"); continue
-        bounds = I.bounds_of(c.ca) + I.bounds_of(c.cb)
+        bounds = I.mentioned_bounds(c.ca, c.ga) + I.mentioned_bounds(c.cb, c.gb)
         probes = I.critical_probes(bounds)
         nt = VC.nontrivial_pair(c)
         R.case(dict(a=c.a, b=c.b), nontrivial=nt); R.count("nontrivial_pairs" if nt else "trivial_pairs")
-        d = oracle_pair(c, probes) or oracle_single(c.ca, probes)
+        has_local = any(v.is_local() for v in bounds)
+        if has_local: R.count("pairs_with_local_bounds")
+        # bounds with local labels are outside the property's domain for the pair answers; flags/self are unconditional
+        d = (None if has_local else oracle_pair(c, probes)) or oracle_single(c.ca, probes)
         if d: R.fail(dict(a=c.a, b=c.b), d)
         if VC.model_ok(c):
             reqs.append(["cpred", I.spec(c.ga), I.spec(c.gb)]); idx.append(c)
